@@ -52,6 +52,12 @@ def check(prop, tier, spec):
     try:
         rnd = random.Random(C.seed())
         scripts = spec["scripts"](tier, rnd)
+        if spec.get("specgen"):
+            # spec -> code: environment scripts simulated by TLC from the system specification itself
+            nq, nt = spec["specgen"]
+            n = nt if tier == "thorough" else nq
+            scripts = scripts + B.spec_generated_scripts(work, n, C.seed()) + \
+                B.spec_generated_scripts(work, max(1, n // 3), C.seed() + 1, passive=True)
         seen = set()
         uniq = []
         for s in scripts:
